@@ -130,7 +130,7 @@ def run_parser(datadir, cb, dump=None, coin=None, start=None, end=None, verify=F
         _ambient += 1
         amb = _ambient
     if os.environ.get('RBP_VERIF_NO_AMBIENT') is None:
-        if verbose == 0 and cb != 'opreturn':
+        if verbose == 0:
             verbose = (0, 0, 0, 1, 0, 0, 2)[amb % 7]
         if threads is None:
             threads = (None, None, 1, None, 3, None)[amb % 6]
